@@ -80,6 +80,23 @@ def row_of(iso3):
     raise KeyError(iso3)
 
 
+def head_row(iso3):
+    """Row of the FAOSTAT head-count table for a country: {<species>_head: value}."""
+    if "heads" not in _CACHE:
+        path = os.path.join(core.REPO_DIR, "data", "no_food_trade", "animal_feed_data", "FAOSTAT_head_and_slaughter.csv")
+        with open(path) as f:
+            _CACHE["heads"] = {r["iso3"]: r for r in csv.DictReader(f)}
+    r = _CACHE["heads"].get("SWZ" if iso3 == "SWT" else iso3, {})
+    out = {}
+    for k, v in r.items():
+        if k.endswith("_head"):
+            try:
+                out[k] = float(v)
+            except (TypeError, ValueError):
+                pass
+    return out
+
+
 def pick_country(rng, bias=0.35):
     codes = country_codes()
     if rng.chance(bias):
@@ -227,6 +244,13 @@ def random_overrides(rng, o, iso3, p=0.35):
         o["GRASSES_PRODUCTION_MULTIPLIER"] = rng.pick([0, 0.5, 1, 2, round(rng.uniform(0, 3), 2)])
     if rng.chance(p / 3):
         o["kg_meat_per_large_animal"] = rng.pick([150, 200, 269.7, 350])
+    if iso3 != "WOR" and rng.chance(p / 3):
+        # documented starting head-count override of one species (value = table value scaled)
+        heads = head_row(iso3)
+        present = [k for k, v in heads.items() if v > 0 and k not in ("meat_cattle_head",) or (k == "meat_cattle_head" and v > 0 and iso3 != "IND")]
+        if present:
+            k = rng.pick(sorted(present))
+            o[k] = int(heads[k] * rng.pick([0.5, 0.8, 0.97, 1.03, 1.25, 2.0]))
     return o
 
 
